@@ -11,10 +11,12 @@ import (
 	"bytes"
 	"flag"
 	"fmt"
+	"math/big"
 	"os"
 	"reflect"
 
 	"github.com/ethereum/go-ethereum/rlp"
+	"github.com/holiman/uint256"
 	rb "verif/harness/cmd/c01/rlpbind"
 	tl "verif/harness/tracelib"
 )
@@ -34,16 +36,17 @@ type SpecRes struct {
 }
 
 type Case struct {
-	In    rb.B      `json:"in"`
-	Fill  []int     `json:"fill"`
-	Views []SpecRes `json:"views"`
-	First SpecRes   `json:"first"`
-	Kind  SpecRes   `json:"kind"`
-	Split SpecRes   `json:"split"`
-	SStr  SpecRes   `json:"sstr"`
-	SList SpecRes   `json:"slist"`
-	SUint SpecRes   `json:"suint"`
-	Count SpecRes   `json:"count"`
+	In     rb.B      `json:"in"`
+	Fill   []int     `json:"fill"`
+	Views  []SpecRes `json:"views"`
+	Stream []SpecRes `json:"stream"`
+	First  SpecRes   `json:"first"`
+	Kind   SpecRes   `json:"kind"`
+	Split  SpecRes   `json:"split"`
+	SStr   SpecRes   `json:"sstr"`
+	SList  SpecRes   `json:"slist"`
+	SUint  SpecRes   `json:"suint"`
+	Count  SpecRes   `json:"count"`
 }
 
 type CaseFile struct {
@@ -155,6 +158,17 @@ func runCases(path string, sum *tl.Summary) {
 				bad(fmt.Sprintf("Stream walk(%x) = %v consuming %d, specification %v consuming %d", in, it, n, c.First.V, c.First.N), tl.M{"want": c.First})
 			}
 		}
+		// typed read methods of Stream
+		for oi, want := range c.Stream {
+			it, n, err := streamOp(oi, in)
+			sum.Count("Stream." + streamOpNames[oi])
+			sum.Evaluations++
+			if d := verdict("Stream."+streamOpNames[oi], in, want.OK, want.C, err); d != "" {
+				bad(d, tl.M{"want": want})
+			} else if err == nil && (want.V == nil || !it.Equal(*want.V) || n != want.N) {
+				bad(fmt.Sprintf("Stream.%s(%x) = %v consuming %d, specification %v consuming %d", streamOpNames[oi], in, it, n, want.V, want.N), tl.M{"want": want})
+			}
+		}
 		// raw helpers
 		{
 			k, content, rest, err := rlp.Split(in)
@@ -205,6 +219,83 @@ func runCases(path string, sum *tl.Summary) {
 	sum.Extra["accepted_view_decodes"] = accepted
 	sum.Extra["views"] = len(cf.Views)
 	sum.Rule = "every byte string enumerated by TLC (MCRLP) is decoded into every view type with rlp.DecodeBytes, walked with rlp.Stream and split with the raw helpers; distinct = enumerated strings accepted by at least one view"
+}
+
+// the order of StreamOps in MCRLP.tla
+var streamOpNames = []string{"Uint64", "Uint32", "Uint16", "Uint8", "Bool", "BigInt", "ReadUint256", "Bytes", "Raw", "ReadBytes2", "List+Uint64s"}
+
+func streamOp(op int, in []byte) (rb.Item, int, error) {
+	r := bytes.NewReader(in)
+	s := rlp.NewStream(r, 0)
+	var it rb.Item
+	var err error
+	switch op {
+	case 0:
+		var x uint64
+		x, err = s.Uint64()
+		it = rb.S(rb.MinimalBE(x))
+	case 1:
+		var x uint32
+		x, err = s.Uint32()
+		it = rb.S(rb.MinimalBE(uint64(x)))
+	case 2:
+		var x uint16
+		x, err = s.Uint16()
+		it = rb.S(rb.MinimalBE(uint64(x)))
+	case 3:
+		var x uint8
+		x, err = s.Uint8()
+		it = rb.S(rb.MinimalBE(uint64(x)))
+	case 4:
+		var x bool
+		x, err = s.Bool()
+		if x {
+			it = rb.S([]byte{1})
+		} else {
+			it = rb.S(nil)
+		}
+	case 5:
+		var x *big.Int
+		x, err = s.BigInt()
+		if err == nil {
+			it = rb.S(x.Bytes())
+		}
+	case 6:
+		var x uint256.Int
+		err = s.ReadUint256(&x)
+		it = rb.S(x.Bytes())
+	case 7:
+		var b []byte
+		b, err = s.Bytes()
+		it = rb.S(b)
+	case 8:
+		var b []byte
+		b, err = s.Raw()
+		it = rb.R(b)
+	case 9:
+		var b [2]byte
+		err = s.ReadBytes(b[:])
+		it = rb.S(b[:])
+	case 10:
+		if _, err = s.List(); err != nil {
+			break
+		}
+		xs := []rb.Item{}
+		for s.MoreDataInList() {
+			var x uint64
+			if x, err = s.Uint64(); err != nil {
+				break
+			}
+			xs = append(xs, rb.S(rb.MinimalBE(x)))
+		}
+		if err == nil {
+			err = s.ListEnd()
+		}
+		it = rb.L(xs)
+	default:
+		tl.Fatal("unknown stream op %d", op)
+	}
+	return it, len(in) - r.Len(), err
 }
 
 func okStr(b bool) string {
